@@ -274,6 +274,8 @@ class World:
                 world.ev(ev='create', g=g, m=self.mname)
 
             def startModule(self, start_events):
+                if world.case.get('mode') == 'startexc' and self.mname == 'm2':
+                    raise RuntimeError('scripted failure in startModule')
                 world.ev(ev='start', g=self._g, m=self.mname)
                 super().startModule(start_events)
 
@@ -674,7 +676,9 @@ class World:
         s = self.s
         tmax = self.case.get('tmax', 40)
         err = ''
+        rows = self.case['kinds']
         self.raw({'ev': 'cfg', 'nif': len(self.schemes), 'mode': self.case.get('mode', ''),
+                         'kinds': [list(rows[min(g, len(rows) - 1)]) for g in range(4)],
                          'nameform': 'path' if self.case.get('mode') == 'args' else 'plain', 'th': 'ctl', 'vt': 0})
         try:
             with self.patches():
